@@ -16,6 +16,7 @@ import (
 	"go.opentelemetry.io/otel"
 	"go.opentelemetry.io/otel/metric"
 	"go.opentelemetry.io/otel/propagation"
+	"go.opentelemetry.io/otel/trace"
 	sdkmetric "go.opentelemetry.io/otel/sdk/metric"
 	"go.opentelemetry.io/otel/sdk/metric/metricdata"
 	sdktrace "go.opentelemetry.io/otel/sdk/trace"
@@ -72,6 +73,15 @@ type cbReg struct {
 type spanOp struct {
 	name     string
 	inv, ret uint64
+	probe    bool
+	th       *tracerHandle
+}
+
+// tracerHandle is one tracer object handed out by the global API and kept by a task.
+type tracerHandle struct {
+	name     string
+	tr       trace.Tracer
+	inv, ret uint64
 }
 
 type recProc struct {
@@ -91,10 +101,26 @@ type world struct {
 	meas    []*measOp
 	cbs     []*cbReg
 	spans   []*spanOp
+	tracers []*tracerHandle
 	nextBit map[instKey]int
 	setMP   *simdrv.OpCall
 	setTP   *simdrv.OpCall
 	colls   []*simdrv.OpCall
+}
+
+// mergeInstall combines concurrent installations of the same SDK: installation is in progress from
+// the earliest invocation and complete when the earliest call has returned.
+func (w *world) mergeInstall(dst **simdrv.OpCall, o *simdrv.OpCall) {
+	if *dst == nil {
+		*dst = o
+		return
+	}
+	if o.Inv < (*dst).Inv {
+		(*dst).Inv = o.Inv
+	}
+	if o.Ret < (*dst).Ret {
+		(*dst).Ret = o.Ret
+	}
 }
 
 type planOp struct {
@@ -115,7 +141,7 @@ func (engine) Body(r *simdrv.Run) {
 	for t := range plans {
 		n := 3 + r.Cfg(9)
 		for i := 0; i < n; i++ {
-			op := planOp{kind: []string{"inst", "inst", "add", "add", "add", "regcb", "unregcb", "span", "span"}[r.Cfg(9)], meter: r.Cfg(2), name: r.Cfg(3), ikind: r.Cfg(len(instKinds)), held: r.Cfg(3) == 0}
+			op := planOp{kind: []string{"inst", "inst", "add", "add", "add", "regcb", "unregcb", "span", "span", "gettracer"}[r.Cfg(10)], meter: r.Cfg(2), name: r.Cfg(3), ikind: r.Cfg(len(instKinds)), held: r.Cfg(3) == 0}
 			if r.Cfg(6) == 0 {
 				op.sleep = time.Millisecond
 			}
@@ -208,6 +234,7 @@ func (engine) Body(r *simdrv.Run) {
 		sim.Spawn(name, func() {
 			var mine []*handle
 			var myCbs []*cbReg
+			var myTracers []*tracerHandle
 			// provider objects obtained once, up front (typically before the SDK is installed)
 			tp0 := otel.GetTracerProvider()
 			heldMP[name] = otel.GetMeterProvider()
@@ -260,12 +287,27 @@ func (engine) Body(r *simdrv.Run) {
 							break
 						}
 					}
+				case "gettracer":
+					th := &tracerHandle{name: fmt.Sprintf("t%d", op.meter), inv: sim.Stamp()}
+					if op.held {
+						th.tr = tp0.Tracer(th.name)
+					} else {
+						th.tr = otel.Tracer(th.name)
+					}
+					th.ret = sim.Stamp()
+					w.tracers = append(w.tracers, th)
+					myTracers = append(myTracers, th)
+					r.Log("%d gettracer %s held-provider=%v task=%s (invoked %d)", th.ret, th.name, op.held, name, th.inv)
 				case "span":
 					sp := &spanOp{name: fmt.Sprintf("%s-s%d", name, len(w.spans)), inv: sim.Stamp()}
 					w.spans = append(w.spans, sp)
 					tr := otel.Tracer(fmt.Sprintf("t%d", op.meter))
 					if op.held {
 						tr = tp0.Tracer(fmt.Sprintf("t%d", op.meter))
+					}
+					if len(myTracers) > 0 && op.name != 0 {
+						sp.th = myTracers[op.name%len(myTracers)] // a tracer object obtained earlier
+						tr = sp.th.tr
 					}
 					_, s := tr.Start(context.Background(), sp.name)
 					s.End()
@@ -298,19 +340,21 @@ func (engine) Body(r *simdrv.Run) {
 			switch st {
 			case "mp":
 				if doMP {
-					w.setMP = &simdrv.OpCall{Kind: "setmp", Inv: sim.Stamp()}
-					r.Log("%d SetMeterProvider-invoke", w.setMP.Inv)
+					o := &simdrv.OpCall{Kind: "setmp", Inv: sim.Stamp()}
+					r.Log("%d SetMeterProvider-invoke", o.Inv)
 					otel.SetMeterProvider(sdkmp)
-					w.setMP.Ret = sim.Stamp()
-					r.Log("%d SetMeterProvider-return", w.setMP.Ret)
+					o.Ret = sim.Stamp()
+					r.Log("%d SetMeterProvider-return", o.Ret)
+					w.mergeInstall(&w.setMP, o)
 				}
 			case "tp":
 				if doTP {
-					w.setTP = &simdrv.OpCall{Kind: "settp", Inv: sim.Stamp()}
-					r.Log("%d SetTracerProvider-invoke", w.setTP.Inv)
+					o := &simdrv.OpCall{Kind: "settp", Inv: sim.Stamp()}
+					r.Log("%d SetTracerProvider-invoke", o.Inv)
 					otel.SetTracerProvider(sdktp)
-					w.setTP.Ret = sim.Stamp()
-					r.Log("%d SetTracerProvider-return", w.setTP.Ret)
+					o.Ret = sim.Stamp()
+					r.Log("%d SetTracerProvider-return", o.Ret)
+					w.mergeInstall(&w.setTP, o)
 				}
 			case "prop":
 				otel.SetTextMapPropagator(propagation.TraceContext{})
@@ -324,6 +368,35 @@ func (engine) Body(r *simdrv.Run) {
 			delete(inflight, "installer")
 		}
 	})
+	// sometimes a second goroutine installs the same SDK concurrently (two initialisation paths racing):
+	// once either call has returned, everything must forward
+	if r.Cfg(3) == 0 {
+		after2 := r.Cfg(8)
+		r.Res.Config["second_installer_after"] = after2
+		sim.Spawn("installer2", func() {
+			for i := 0; i < after2; i++ {
+				simrt.Yield(simdrv.PtOp)
+			}
+			inflight["installer2"] = "set-mp"
+			if doMP {
+				o := &simdrv.OpCall{Kind: "setmp", Inv: sim.Stamp()}
+				r.Log("%d SetMeterProvider-invoke (second installer)", o.Inv)
+				otel.SetMeterProvider(sdkmp)
+				o.Ret = sim.Stamp()
+				r.Log("%d SetMeterProvider-return (second installer)", o.Ret)
+				w.mergeInstall(&w.setMP, o)
+				r.Fault("concurrent-installers")
+			}
+			inflight["installer2"] = "set-tp"
+			if doTP {
+				o := &simdrv.OpCall{Kind: "settp", Inv: sim.Stamp()}
+				otel.SetTracerProvider(sdktp)
+				o.Ret = sim.Stamp()
+				w.mergeInstall(&w.setTP, o)
+			}
+			delete(inflight, "installer2")
+		})
+	}
 	var final metricdata.ResourceMetrics
 	sim.Spawn("closer", func() {
 		sim.JoinOthers(simdrv.PtOp)
@@ -331,6 +404,14 @@ func (engine) Body(r *simdrv.Run) {
 		// one probe measurement through every instrument object ever handed out
 		for _, h := range w.handles {
 			measure("closer", h, true)
+		}
+		for i, th := range w.tracers {
+			sp := &spanOp{name: fmt.Sprintf("probe-s%d", i), inv: sim.Stamp(), probe: true, th: th}
+			w.spans = append(w.spans, sp)
+			_, s := th.tr.Start(context.Background(), sp.name)
+			s.End()
+			sp.ret = sim.Stamp()
+			r.Log("%d probe-span %s through tracer obtained %d..%d", sp.ret, sp.name, th.inv, th.ret)
 		}
 		inflight["closer"] = "collect"
 		collect("closer")
@@ -460,7 +541,15 @@ func (engine) Body(r *simdrv.Run) {
 				r.Violate(prop, "phantom-span", "phantom-span", "span %s reached the SDK although SetTracerProvider was never called", sp.name)
 			}
 		case sp.inv > w.setTP.Ret && n == 0:
-			r.Violate(prop, "lost-span", "lost-span", "span %s started at %d, after SetTracerProvider returned at %d, did not reach the SDK", sp.name, sp.inv, w.setTP.Ret)
+			sig, extra := "lost-span", ""
+			if sp.th != nil {
+				sig = "unconnected-tracer"
+				extra = fmt.Sprintf(" (through the tracer object obtained at %d..%d)", sp.th.inv, sp.th.ret)
+				if sp.th.ret > w.setTP.Inv && sp.th.inv < w.setTP.Ret {
+					sig += "/obtained-during-installation"
+				}
+			}
+			r.Violate(prop, "lost-span", sig, "span %s started at %d, after SetTracerProvider returned at %d, did not reach the SDK%s", sp.name, sp.inv, w.setTP.Ret, extra)
 		case sp.ret < w.setTP.Inv && n > 0:
 			r.Violate(prop, "phantom-span", "phantom-span", "span %s (made at %d..%d, before SetTracerProvider was invoked at %d) reached the SDK", sp.name, sp.inv, sp.ret, w.setTP.Inv)
 		}
